@@ -1,9 +1,10 @@
 import Dalek.Proofs.Scalar52.Compose
+import Dalek.Proofs.Scalar52.Bytes
 /-! # Scalar52: glue between the `Nat`-level property statements and the `Int`-level kernel lemmas -/
 set_option exponentiation.threshold 600
 
 namespace Dalek.Proofs.Scalar52
-open Dalek.IR
+open Dalek.IR Dalek.Model.FieldBytes
 
 theorem val_of_toZ {out : List Nat} {o : List Int} (h : toZ out = o) : (val52 out : Int) = repZ o := by
   rw [← repZ_toZ, h]
@@ -40,5 +41,22 @@ theorem nat_mont_mul_of_zmod {o A B : Nat}
     o * 2 ^ 260 % ell = A * B % ell := by
   apply nat_mont_of_zmod
   rw [h, Nat.cast_mul, Int.cast_mul]
+
+theorem leValZ_toZ : ∀ l : List Nat, leValZ (toZ l) = (leVal l : Int)
+  | [] => rfl
+  | b :: bs => by rw [toZ_cons, leValZ, leVal, leValZ_toZ bs]; push_cast; rfl
+
+theorem leVal_of_toZ {out : List Nat} {o : List Int} (h : toZ out = o) : (leVal out : Int) = leValZ o := by
+  rw [← leValZ_toZ, h]
+
+/-- inputs inside `bytes n` are `< 256` -/
+theorem limBytes_of_envIn {n : Nat} {xs : List Nat} (h : EnvIn xs (Dalek.Model.Contracts.bytes n)) :
+    Lim 256 (toZ xs) :=
+  lim_of_envIn 255 256 (by norm_num) n xs h
+
+theorem Lim_split4 {B : Int} {a0 a1 a2 a3 : Int} {rest : List Int}
+    (h : Lim B (a0 :: a1 :: a2 :: a3 :: rest)) : Lim B [a0, a1, a2, a3] ∧ Lim B rest := by
+  simp only [Lim] at h ⊢
+  exact ⟨⟨h.1, h.2.1, h.2.2.1, h.2.2.2.1, trivial⟩, h.2.2.2.2⟩
 
 end Dalek.Proofs.Scalar52
